@@ -208,7 +208,7 @@ def run(ctx):
     # half-integer costs (exact in floats) with integer and fractional penalty weights: the QUBO must carry the costs
     # exactly whatever number types the constraint data happen to have (oracle only; the Coq literals are integers)
     n_half = 0
-    for _ in range(30 if ctx.quick else 400):
+    for _ in range(90 if ctx.quick else 400):
         desc = fh.random_instance(rng, max_customers=2)
         desc["arcs"] = [(o, d_, t, c * 0.5 if desc["cost_scale"] == 1 else c) for (o, d_, t, c) in desc["arcs"]]
         desc["make_feasible"] = None
